@@ -302,9 +302,9 @@ def fails_spec(ctx, cs):
     return [not spec_ok(i, sp) for (i, m, sp, tx) in ev]
 
 
-def evaluate_each(ctx, cs):
+def evaluate_each(ctx, cs, args=()):
     """like evaluate, but every case in its own harness process (used by shrinking / replay)"""
-    impl = [ctx.harness('cenc', [line(c)])[0] for c in cs]
+    impl = [ctx.harness('cenc', [line(c)], args=args)[0] for c in cs]
     txs = [int(i.split(' ')[-1][:4], 16) if c[0] == 'T' and i.startswith('SENT ') and '+' not in i else 0 for c, i in zip(cs, impl)]
     both = ctx.coq_eval(REQS, 'run_enc', [to_coq(c, tx) for c, tx in zip(cs, txs)], case_type=CASE_TYPE)
     return [(i, b.split('|')[0], b.split('|')[0] if b.split('|')[1] == '=' else b.split('|')[1], tx) for i, b, tx in zip(impl, both, txs)]
@@ -375,7 +375,7 @@ def run(ctx):
         return
     if ctx.replay and 'cases' in ctx.replay:
         cases = [norm(c) for c in ctx.replay['cases']]
-        results = evaluate_each(ctx, cases)
+        results = evaluate_each(ctx, cases, args=(['--decode', 'max'] if ctx.replay.get('decode') == 'max' else ()))
     else:
         cases = gen_cases(ctx, quick)
         results = evaluate(ctx, cases)
@@ -434,12 +434,29 @@ def run(ctx):
             if n_model <= 2:
                 ctx.violation('model-differs-from-impl', f'{line(c)}: impl `{impl[:80]}` model `{model[:80]}`',
                               {'cases': [jcase(c)], 'impl': impl, 'model': model, 'spec': spec}, no_failing_input=True)
-    if not quick and not ctx.replay:
-        # same prefix of cases with every decode level switched on (logging paths execute): identical lines
-        k = min(len(cases), 20000)
+    if not ctx.replay:
+        # the same cases with every decode level at its maximum: the "PDU TX" Display walks (RequestDetailsDisplay,
+        # WriteMultipleIterator at DataValues), MbapDisplay / RtuDisplay and format_bytes really execute (C04_log_request):
+        # no panic, identical lines
+        k = min(len(cases), 40000)
         loud = ctx.harness('cenc', [line(c) for c in cases[:k]], args=['--decode', 'max'])
         diff = [i for i in range(k) if loud[i] != results[i][0]]
         ctx.oblige('decode-level-max-gives-identical-results', not diff, f'{len(diff)} of {k} lines differ, first: {line(cases[diff[0]]) if diff else ""}')
+        for i in diff[:2]:
+            c = cases[i]
+            ctx.violation(f'client.{KIND_NAME[c[1]]}.logging-at-decode-max-changes-the-result',
+                          f'{line(c)[:120]}: with every decode level at its maximum `{loud[i][:80]}`, with logging off `{results[i][0][:80]}`; Spec `{results[i][2][:80]}`',
+                          {'cases': [jcase(c)], 'decode': 'max', 'impl': loud[i], 'impl_without_logging': results[i][0], 'spec': results[i][2]})
+        for c, r0 in zip(cases[:k], results[:k]):
+            if r0[0].startswith('SENT') and c[1] in (15, 16):
+                if c[3] + c[4] == 65536:
+                    bump('logged-tx:write-multiple-ends-at-65535')
+                if c[4] == LIMIT[c[1]]:
+                    bump('logged-tx:write-multiple-at-limit')
+                if c[1] == 15 and c[4] % 8:
+                    bump('logged-tx:coils-not-multiple-of-8')
+        lmiss = [x for x in ('logged-tx:write-multiple-ends-at-65535', 'logged-tx:write-multiple-at-limit', 'logged-tx:coils-not-multiple-of-8') if classes.get(x, 0) < 3]
+        ctx.oblige('decode-level-max-pass-reaches-expected-classes', not lmiss, f'missing={lmiss}')
     ctx.oblige('correspondence:client-encode-vs-model', n_model == 0, f'{n_model} cases where the implementation differs from the model only')
     ctx.oblige('correspondence:client-encode-vs-spec', n_spec == 0, f'{n_spec} cases where the implementation differs from the Spec')
     ctx.oblige('tx-id-field-is-the-task-counter', tx_bad == 0, f'{tx_bad} frames whose MBAP transaction id is not the number of requests the task saw before')
